@@ -8,7 +8,7 @@ from .. import faultrun, model, sig
 
 PROP = "C10"
 LEVEL = "fault_enumeration"
-MONITORS = ["crash_before_step", "torn_write", "file_old_or_new", "api_reads_old_or_new", "leftovers_bounded",
+MONITORS = ["next_write_over_leftover", "crash_before_step", "torn_write", "file_old_or_new", "api_reads_old_or_new", "leftovers_bounded",
             "atomic_policy", "reader_between_writer_steps"]
 DISTINCT = "nontrivial"
 RULE = (
@@ -221,6 +221,25 @@ def api_read(root, case):
     return dict(p._sp_cache)
 
 
+def next_write(root, case):
+    """A fresh session completes one more write of the same target with short content. Returns that content."""
+    import signac
+
+    p = signac.Project(root)
+    if case["target"] == "cache":
+        jobs = sorted(p, key=lambda j: j.id)
+        for job in jobs[1:]:
+            job.remove()
+        p.update_cache()
+        return {j.id: model.plain(j.statepoint()) for j in jobs[:1]}
+    short = {"z": 0}
+    if case["target"] == "jobdoc":
+        p.open_job(SP).document = short
+    else:
+        p.document = short
+    return short
+
+
 def acceptable(obs, old, new, intermediate_ok):
     if obs[0] == "absent":
         return old is None
@@ -328,6 +347,24 @@ def run_case(ctx, case):
             wit["stray"] = stray
             ctx.violation("too-many-stray-files-after-crash", "a crash left more than one stray temporary file", wit)
             return
+        # the session after the crash writes again, next to whatever the crash left behind: a complete write of a
+        # (much) shorter content must again leave exactly that content
+        if stray:
+            ctx.monitor("next_write_over_leftover")
+            try:
+                want = next_write(root, case)
+                got2 = read_target(os.path.join(root, rel), kind)
+            except Exception as e:  # noqa
+                wit["error"] = f"{type(e).__name__}: {e}"[:200]
+                ctx.violation("write-after-crash-fails", "the first write after a crash (leftover temporary file present) failed", wit)
+                return
+            if not (got2[0] == "value" and model.typed_eq(got2[1], want)):
+                wit["observed"] = got2[0] if got2[0] != "value" else "other-content"
+                wit["detail"] = got2[1] if got2[0] == "broken" else None
+                wit["stray"] = stray
+                ctx.violation("write-after-crash-leaves-garbage",
+                              "the first complete write after a crash did not leave exactly the new content", wit)
+                return
         import shutil
 
         shutil.rmtree(root, ignore_errors=True)
